@@ -27,7 +27,8 @@ def run(ctx):
         "two instances of the parser model - a long-lived object and a fresh one - and checks SameAsFresh; the variant that keeps "
         "the option scratch map (the pinned defect) must violate it (vacuity guard); each emitted sequence is replayed on ONE real "
         "DefaultArgsParser and compared; random sequences of 1-6 requests over the soup formats are decided by ArgsParserTrace "
-        "(same-as-fresh, argv list / raw tokens / format listings untouched); non-trivial = >= 2 requests with an option in an earlier one"
+        "(same-as-fresh, argv list / raw tokens / format listings untouched, Command.parse on one Command and one raw-args object "
+        "leniently then strictly then by default: P.route.command); non-trivial = >= 2 requests with an option in an earlier one"
     )
     ctx.assumptions += ["fresh parser = DefaultArgsParser() created for the request", "format listings compared through the public get_* listings"]
     r = ctx.model(SPEC, "MC_ArgsSeq", "MC_ArgsSeq_defect.cfg", name="pinned-defect-must-violate", expect_ok=False, workers=8)
@@ -60,6 +61,18 @@ def run(ctx):
     # ---- random longer sequences on the soup formats (they include typed options and command names)
     r2 = ctx.model(SPEC, "MC_ArgsSoup", "MC_ArgsSoup_formats.cfg", name="soup-formats", workers=2)
     sformats = L.formats_from(r2)
+    # two more formats: several required arguments (an error that names more than one of them) and optional-value options
+    # of the same name whose defaults are Python values that compare equal (True == 1) but convert differently
+    def A(n, req):
+        return {"name": n, "req": req, "multi": False, "type": "str", "nullable": False, "dflt": {"t": "N"}}
+
+    def O(lg, sh, mode, dflt):
+        return {"long": list(lg), "short": sh, "mode": mode, "type": "str", "nullable": False, "dflt": dflt}
+
+    sformats = sformats + [
+        {"cnames": [], "args": [A("p1", True), A("p2", True), A("p3", True)], "opts": [O("aa", "a", "opt", {"t": "T"}), O("bb", "b", "none", {"t": "N"})]},
+        {"cnames": [], "args": [A("x", True), A("host", True), A("z", False)], "opts": [O("aa", "a", "opt", {"t": "I", "v": ["1"]}), O("bb", "", "multi", {"t": "N"})]},
+    ]
     sfobjs = [L.build_format(f, True) for f in sformats]
     alpha = ["", "-", "--", "--aa", "--aa=x", "--aa=7", "--zz", "-a", "-ax", "-ab", "-b", "--bb", "null", "x", "7", "srv", "s", "-a7", "--bb=1", "--", "true"]
     n = 400 if quick else 8000
